@@ -4,8 +4,9 @@ C14 — the byte ring (`service/buffer.go`) is a lossless FIFO.
 Property theorems only (helper lemmas: `Proofs/Ring.lean`, `Proofs/RingSafety.lean`,
 `Proofs/RingFacts.lean`).  The model (`Model/Ring.lean`) is the concurrent small-step
 program of the ring: one producer, one consumer, any number of closers, each running
-an arbitrary finite program of API calls; one step per shared access, lock operation,
-`Wait` (park / resume), `Broadcast`, per byte copied, and return.  All theorems
+an arbitrary finite program of API calls (`ReadFrom` with any reader script among the
+producer's); one step per shared access, lock operation, `Wait` (park / resume), `Broadcast`,
+per byte copied, and return.  All theorems
 quantify over *every* ring size `2^k`, source stream, start position, thread
 programs (well-typed by role) and schedule `sched : List Tid` — no bound.
 -/
@@ -28,8 +29,10 @@ def reach (cfg : Cfg) (adv gate : Nat) (progP progC : List Call) (progsK : List 
 
 /-- The safety invariant `RInv` (cursor order, `pseq ≤ cseq + size`, `gate ≤ cseq`, the
 cells between the cursors hold the stream, the consumer's bytes are the stream prefix, the
-producer's reservation lies below `gate + size`, the consumer's window below `pseq`, peeked
-views and pending bytes are the stream at `cseq`) is preserved by every step of every thread. -/
+producer's reservation lies below `cseq + size` — it was below `known + size` for a lower bound
+`known` of the consumer cursor the producer had obtained: the gate, or the cursor `ReadFrom` loaded —,
+the consumer's window below `pseq`, peeked views and pending bytes are the stream at `cseq`) is
+preserved by every step of every thread. -/
 theorem C14_invariant_step (cfg : Cfg) (base : Nat) (s s' : St) (t : Tid)
     (h : RInv cfg base s) (hs : step cfg s t = some s') : RInv cfg base s' :=
   inv_step cfg base s s' t h hs
@@ -109,9 +112,9 @@ theorem C14_chunks (cfg : Cfg) (adv gate : Nat) (progP progC : List Call) (progs
     subst hs
     exact cons_res cfg adv _ sh' _ th' hinv.glob hinv.invC hinv.okC hst r hr
 
-/-- **Layer 1.** On the abstract machine (cursor, gate, cell and commit steps, each guarded by
-what the acting thread is entitled to know: a write inside `[pseq, gate+size)`, a producer commit
-of written cells, a consumer commit below `pseq`) the safety invariant — `cseq ≤ pseq ≤ cseq+size`,
+/-- **Layer 1.** On the abstract machine (cursor, gate, cell and commit steps, each with the guard
+that makes it safe: a write inside `[pseq, cseq+size)`, a producer commit of written cells below
+`cseq + size`, a consumer commit below `pseq`) the safety invariant — `cseq ≤ pseq ≤ cseq+size`,
 `gate ≤ cseq`, the cells between the cursors hold the stream, the obtained bytes are the stream
 prefix — is preserved by every step, for any ring size. -/
 theorem C14_layer1_safety (size : Nat) (hs : 0 < size) (src : Nat → UInt8) (base : Nat) (a a' : A)
@@ -134,8 +137,32 @@ theorem C14_simulation (cfg : Cfg) (adv gate : Nat) (progP progC : List Call) (p
 
 /-- the lock structure and block sizes regenerated from the source are the ones the model
 was written against -/
-theorem C14_facts : Mqtt.Generated.bufferLocks = lockFacts ∧ 2 * Mqtt.Generated.defaultReadBlockSize = 2 ^ 14 :=
-  ⟨ring_lock_facts, ring_block_facts.2.2.2⟩
+theorem C14_facts : Mqtt.Generated.bufferLocks = lockFacts ∧ 2 * Mqtt.Generated.defaultReadBlockSize = 2 ^ 14 ∧
+    ({ k := 14, src := fun _ => 0 } : Cfg).rblock = Mqtt.Generated.defaultReadBlockSize :=
+  ⟨ring_lock_facts, ring_block_facts.2.2.2.1, ring_block_facts.2.2.2.2⟩
+
+/-- **C14 for `ReadFrom`** (repository commit 8f682d1: wait for one free byte, then read into the free,
+contiguous part of the ring).  In every reachable state: the slice handed to the reader (mark 111) and
+the bytes the reader is filling start at the producer cursor and end at or below `cseq + size` — the
+consumer cursor `ReadFrom` loaded is a lower bound of the current one, so the slice is disjoint from the
+cells of `[cseq, pseq)`, which hold every byte the consumer has not committed, every peeked view
+included (`C14_no_overwrite`, `C14_view_protected`); and when the read has returned `n` bytes they are
+the stream, and `pseq + n ≤ cseq + size`: the `WriteCommit(n)` that follows finds its space. -/
+theorem C14_readfrom_slice_free (cfg : Cfg) (adv gate : Nat) (progP progC : List Call) (progsK : List (List Call))
+    (hgate : gate ≤ adv) (hok : ProgsOK progP progC progsK) (sched : List Tid) :
+    let s := reach cfg adv gate progP progC progsK sched
+    (∀ tot ms start len, s.P.pc = .g111 tot ms start len → start = s.sh.pseq ∧ start + len ≤ s.sh.cseq + cfg.size) ∧
+    (∀ tot ms start n j, s.P.pc = .g111c tot ms start n j →
+      start = s.sh.pseq ∧ start + n ≤ s.sh.cseq + cfg.size ∧ j ≤ n) ∧
+    (∀ tot ms n, s.P.pc = .g111r tot ms n →
+      s.sh.pseq + n ≤ s.sh.cseq + cfg.size ∧ ∀ i, i < n → rd s.sh.buf (cfg.idx (s.sh.pseq + i)) = cfg.src (s.sh.pseq + i)) := by
+  intro s
+  have hp := (C14_invariant cfg adv gate progP progC progsK hgate hok sched).invP.pcinv
+  unfold pcP at hp
+  refine ⟨fun tot ms start len h => ?_, fun tot ms start n j h => ?_, fun tot ms n h => ?_⟩
+  · rw [h] at hp; exact hp
+  · rw [h] at hp; exact ⟨hp.1, hp.2.1, hp.2.2.1⟩
+  · rw [h] at hp; exact ⟨hp.2, hp.1⟩
 
 /-! non-vacuity: a concrete run in which bytes travel through a wrapping ring -/
 
@@ -149,6 +176,18 @@ example :
     let s := reach exCfg 2 2 [.write 3] [.read 2, .read 2] []
       (List.replicate 20 .p ++ List.replicate 40 .c)
     s.sh.gotRev.reverse = [3, 4, 5] ∧ s.sh.cseq = 5 ∧ s.sh.pseq = 5 := by decide +kernel
+
+/-- `ReadFrom` with less than a read block free: a 4-byte ring holding 3 bytes, read block 2 (before
+8f682d1 the loop would have waited for 2 free bytes); the reader offers 3 bytes, then 2: one byte is
+read into the last free cell, the ring is full, the consumer takes 2 bytes, the next read takes 2 more
+(wrapping), the reader is at its end, `ReadFrom` closes the ring and returns `(3, EOF)`; everything the
+consumer got is the stream -/
+example :
+    let cfg : Cfg := { k := 2, src := fun i => UInt8.ofNat (i + 1), rblock := 2 }
+    let s := reach cfg 0 0 [.write 3, .rfrom 0 [3, 2]] [.read 2, .read 2, .read 2] []
+      (List.replicate 30 .p ++ List.replicate 12 .c ++ List.replicate 40 .p ++ List.replicate 30 .c ++ List.replicate 40 .p)
+    s.sh.gotRev.reverse = [1, 2, 3, 4, 5, 6] ∧ s.sh.pseq = 6 ∧ s.sh.cseq = 6 ∧ s.sh.done = true ∧
+      s.P.pc = .idle ∧ s.P.res = some { n := 3, err := .eof } := by decide +kernel
 
 /-! ## Tie to the Go source: the sizing helpers, the index mask and `ringCopy`
 
